@@ -22,7 +22,7 @@ type probe struct {
 	term *Term
 }
 
-const probeElems = 40
+const probeElems = 260
 
 // probeVal collects the terms whose model values describe Go value v of type t at entry.
 func (x *Exec) probeVal(st *State, name string, v Val, t types.Type, depth int, out *[]probe) {
@@ -596,7 +596,7 @@ func tryReplay(p *Program, o *Obligation, rf *ReplayFile, frs []*FuncResult) {
 		rf.ReplayNote = "no function context for this obligation (extra obligation)"
 		return
 	}
-	if o.Kind != "ensures" && o.Kind != "safety" {
+	if o.Kind != "ensures" && o.Kind != "safety" && o.Kind != "call-requires" {
 		rf.ReplayNote = "obligation kind " + o.Kind + " describes an intermediate state; no direct replay"
 		replayBySearch(fr, o, rf)
 		return
